@@ -149,6 +149,10 @@ def build():
     A(Contract(f"{OM}:Source.list_registered_sources", params={"cls": "py:cls", "exclude_no_source": "bool"}, returns="Seq[SourceObj]", globals=G, props=P,
                ensures=["implies(exclude_no_source, result == keys_of(SRCS))", "implies(not exclude_no_source, result == keys_of(SRCS) + [NO_SOURCE])"],
                note="the registered sources in index order (plus the NoSource singleton unless excluded)"))
+    A(Contract(f"{OM}:NoSource.__post_init__", params={"self": "SourceObj"}, globals=G, props=P,
+               ensures=["keys_of(SRCS) == keys_of(old(SRCS))", "mget(SRCS, self) == mget(old(SRCS), self)"],
+               note="the NoSource singleton overrides registration with a no-op: it never enters the source registry (and reports the index -1)"))
+    A(Contract(f"{OM}:NoSource.source_registry_id", params={"self": "SourceObj"}, returns="int", globals=G, props=P, ensures=["result == -1"], note="property"))
     A(Contract(f"{OM}:Source.clear_registry", params={"cls": "py:cls"}, globals=G, modifies=["SRCS", "SIDX"], props=P,
                locals={"._sources": "ODict[SourceObj,int]", "._source_idx_to_source": "Dict[int,SourceObj]"},
                ensures=["len(keys_of(SRCS)) == 0", INV1, INV2], note="both tables are replaced by empty ones (the invariant holds trivially)"))
